@@ -2,6 +2,7 @@ package mon
 
 import (
 	"errors"
+	"fmt"
 	"io"
 	"unicode/utf8"
 
@@ -164,6 +165,10 @@ func InterestingMarks(data []byte, specials string) []int {
 // ErrInjected is the error a FaultReader fails with.
 var ErrInjected = errors.New("injected I/O failure")
 
+// ErrInjectedWrappingEOF is a failure whose cause is an unexpected end of the underlying stream, reported the way wrapping libraries do:
+// it is not io.EOF (== fails) although errors.Is(err, io.EOF) holds. To an io.Reader consumer it is an error like any other.
+var ErrInjectedWrappingEOF = fmt.Errorf("injected I/O failure (connection closed): %w", io.EOF)
+
 // FaultReader delivers data[0:k) (chunked), then fails.
 type FaultReader struct {
 	data  []byte
@@ -178,6 +183,14 @@ type FaultReader struct {
 	Calls      int
 	FaultCalls int
 	SpinLimit  int
+	Err        error // the failure (ErrInjected if nil)
+}
+
+func (f *FaultReader) err() error {
+	if f.Err != nil {
+		return f.Err
+	}
+	return ErrInjected
 }
 
 // NewFaultReader creates a reader that fails at offset k.
@@ -202,14 +215,14 @@ func (f *FaultReader) Read(p []byte) (int, error) {
 		if f.kind == "transient" && f.failed == 0 {
 			f.failed++
 			f.FaultCalls++
-			return 0, ErrInjected
+			return 0, f.err()
 		}
 		f.failed++
 		f.FaultCalls++
 		if f.SpinLimit > 0 && f.FaultCalls > f.SpinLimit {
 			panic(ErrSpin{f.FaultCalls})
 		}
-		return 0, ErrInjected
+		return 0, f.err()
 	}
 	n := f.sizes()
 	if n < 1 {
@@ -227,12 +240,12 @@ func (f *FaultReader) Read(p []byte) (int, error) {
 		// data and the failure in the same call; the reader then works again for `extra` bytes before it fails for good
 		f.failed++
 		f.FaultCalls++
-		return n, ErrInjected
+		return n, f.err()
 	}
 	if f.kind == "with-data" && f.pos >= limit {
 		f.failed++
 		f.FaultCalls++
-		return n, ErrInjected
+		return n, f.err()
 	}
 	return n, nil
 }
